@@ -279,3 +279,30 @@ def run_all(scratch, entries, jobs=14, mem_budget_gb=None, log=print):
             r2["retried_with_gb"] = big
             results[name] = r2
     return results
+
+
+def counterexample(scratch, entry, timeout=600):
+    """re-runs one failed harness with Kani's concrete playback and returns the concrete values CBMC chose for
+    the harness's symbolic inputs (in the order of the kani::any() calls), or None"""
+    crate = os.path.join(scratch.dir, "crate")
+    if not os.path.isdir(crate):
+        crate = prepare_crate(scratch)
+    full = f"{entry['module']}::{entry['harness']}"
+    tdir = os.path.join(scratch.dir, "t-cex-" + entry["harness"])
+    cmd = ["cargo", "kani", "--exact", "--harness", full, "--target-dir", tdir, "--output-format", "terse", "-Z", "stubbing", "-Z", "function-contracts",
+           "-Z", "concrete-playback", "--concrete-playback=print"]
+    if entry.get("field_sensitivity"):
+        cmd += ["-Z", "unstable-options", "--cbmc-args", "--max-field-sensitivity-array-size", str(entry["field_sensitivity"])]
+    env = dict(ENV)
+    if entry.get("cfg"):
+        env["RUSTFLAGS"] = " ".join(f"--cfg {c}" for c in entry["cfg"])
+    rc, out, secs, to = run(cmd, cwd=crate, timeout=timeout, mem_gb=entry.get("mem_gb", 6) * 1.25 + 2, env=env)
+    shutil.rmtree(tdir, ignore_errors=True)
+    m = re.search(r"Concrete playback unit test for[^\n]*\n```\n(.*?)```", out, re.S)
+    if not m:
+        return None
+    text = m.group(1)
+    check = re.search(r'Check for `[^`]*`: "([^"]*)"', text)
+    vals = re.findall(r"^\s*// (.+)$\n\s*vec!\[", text, re.M)
+    return {"harness": entry["harness"], "refuted_check": check.group(1) if check else None,
+            "symbolic_inputs_in_order_of_kani_any_calls": vals, "kani_playback_test": text[-3000:]}
